@@ -24,7 +24,9 @@ func (d *Driver) sample() {
 	defer inSample.Store(false)
 	now := d.lastNow
 	p := d.plan
-	if d.hasBare {
+	if d.hasBare && d.parkedInLock == 0 {
+		// (not while a goroutine is parked inside a critical section: the flag may be set and the
+		// token not yet; the lock release will be observed)
 		d.pollClaimsLocked("polled-at-quiescent-point")
 	}
 	j18 := p.judges("C18")
@@ -70,6 +72,10 @@ func (d *Driver) sample() {
 				}
 			}
 			if !j18 && !j05 {
+				continue
+			}
+			if d.parkedInLock > 0 {
+				// a goroutine is parked inside a critical section: Status() would wait for its mutex
 				continue
 			}
 			st := o.el.Status()
